@@ -16,6 +16,24 @@ CLAIMS = {
     "C13": ("static schema analysis (AST class-model reconstruction + rule evaluation over all classes/children/constraints)",
             "Whole property, exhaustive over its finite quantifier (programs): for all 396 exported aggregate classes, 2122 declared children and all mutex groups, rules S-R1..S-R8 (tag agreement writer/reader, findable by tag, mutex members declared/non-repeated/non-required and inherited groups in force, list contiguity, list kinds, constraints that can fire, no container-API shadowing, buildable by keyword) plus mechanism rules M1..M5 tying them to models/base.py. Does not decide that construction succeeds for particular values.",
             "3 C13"),
+    "C04": ("CFG must-pass-through / dominance over the construction funnel + schema rules + converter guard rules",
+            "Enforcement clauses: single construction funnel (F-R1), validate_args / per-attribute setattr / _apply_args on every path of Aggregate.__init__ with no swallowing handler (F-R2), inherited mutex groups in force in every class and overrides chaining to the base (F-R3), reader order/duplicate/list-membership guards dominating the stores and strict (F-R4), counting predicates (F-R5), per-type guards T-R2..T-R5. Does not decide concrete boundary values beyond guard strictness.",
+            "3 C04"),
+    "C10": ("singledispatch handler-table extraction + CFG/reaching-definition rules on every handler",
+            "Partial: None discipline, limits and wrong types. T-R1 dispatch completeness, T-R2 every None/empty path through enforce_required, T-R3 every String/Integer return out of enforce_length and every OneOf return behind the membership raise, T-R4 exact guard strictness (limit accepted, limit+1 rejected, warn-only strings kept whole), T-R5 unregistered types rejected, T-R6 Decimal quantize/same-quantum. Does not decide that write-then-read is the identity or canonical for values.",
+            "3 C10"),
+    "C16": ("flow-sensitive type narrowing of every @property over the reconstructed schema + exception-escape rule on __getattr__",
+            "Shortcut typing and miss discipline: only AttributeError escapes Aggregate.__getattr__ (A-R1); every typed attribute read in every shortcut is defined on its type, every isinstance arm can match, request/response coverage symmetric (A-R2); aliases name declared children of the right kind (A-R3); OFX.statements/securities visit exactly the message sets defining the shortcut in document order (A-R4). Object identity follows since shortcuts only return attribute reads; it is not executed.",
+            "3 C16"),
+    "C14": ("effect (who-may-call), flag-pruned CFG reachability and per-branch provenance (reaching definitions) analysis of Client.py",
+            "Whole mechanism on the client side: sinks only in post_request, none on a dry run, profile lookup unreachable under dryrun/skip_profile, exactly one literal POST per path with the serialized body / self.http_headers / the url parameter on both transports, header constants folded, profile sign-on only from AUTH_PLACEHOLDER, per-branch URL provenance (advertised URL vs self.url), per-instance cookie jar attached on both transports. urllib/requests internals are trusted.",
+            "3 C14"),
+    "C17": ("write-effect classification by target provenance (reaching definitions) with a frozen, side-condition-checked triage table",
+            "Sufficient condition for purity/repeatability/thread-safety: no shared location written and read in scope (E-R1/E-R3), no mutation of caller-owned objects (E-R2), no mutable defaults / shared parser instances / memoised mutable results (E-R4), over all 198 functions and ~70 write sites of Types.py, models/**, Parser.py, header.py, utils.py, lib.py and OFXClient.serialize. A correct hand-written cache would be reported and must then be triaged.",
+            "3 C17"),
+    "C07": ("CFG dominance / handler-exit analysis of the reducer + chain and rename-path rules on every groom override",
+            "Whole mechanism: the unknown-tag branch returns the accumulator it received and stores nothing (U-R1), sub-trees are converted only after a successful spec lookup (U-R2), vendor tags removed or skipped (U-R3, disjunctive), groom overrides chain to the base and _convert grooms before folding (U-R4), class-specific renames look at direct children only, including through helpers (U-R5).",
+            "3 C07"),
 }
 
 PENDING_REASON = "check not built yet in this session; planned per DESIGN.md section 3 - not claimed until its check exists"
